@@ -120,7 +120,9 @@ def verdictWm (hx out : String) : String :=
         | some (p0, p1) => if b then p1[i]? else p0[i]?
         | none => none
       let mod := dnaSyms.map (fun c => (List.range text.length).map (fun p => Model.Wavelet.rank code rk levels c p))
-      if mod ≠ exp then "bad-op model-and-spec-disagree" else
+      -- `wavelet_rank_correct_generated`: model = spec whenever the extracted table passes `tableOk`; a table that fails
+      -- it is the code's defect (reported below through the ranks and by the `tab` case), not one of this machinery
+      if tableOk Gen.Dna2Int.table && mod ≠ exp then "bad-op model-and-spec-disagree" else
       if rows = exp then
         let distinct := (dnaSyms.filter (fun c => text.contains c)).length
         "ok" ++ (if text.length ≥ 2 ∧ distinct ≥ 2 then " nt" else "") ++ s!" wm syms{distinct}"
